@@ -183,7 +183,11 @@ pub fn run_script(initial: Vec<u8>, at_end: bool, script: &[WStep]) -> (Vec<u8>,
         match s {
             WStep::Write(pl) => {
                 let b = pl.bytes();
-                cur.write_all(&b).unwrap();
+                // a zero-length write is no call at all (std's Cursor::write_all would pad to the
+                // seek position even for an empty buffer; the executor never issues such a call)
+                if !b.is_empty() {
+                    cur.write_all(&b).unwrap();
+                }
                 res.push(Ok(b.len() as u64));
             }
             WStep::Seek(w, off) => {
